@@ -305,10 +305,168 @@ def rnd_data(rng, shape):
     return [rnd_data(rng, shape[1:]) for _ in range(shape[0])]
 
 
+# ====================================================================== finite points of extreme magnitude (kind "extreme")
+# Coordinates far outside the range where x*x is representable: above sqrt(DBL_MAX) ~ 1.34e154 the squares overflow, below
+# ~1.5e-162 they underflow to 0, although the radius itself is an ordinary finite double. The true radius is compared with the
+# edges exactly (r^2 = x^2 + y^2 (+ z^2) and edge^2 as Fractions), z exactly, the angles through the coordinates rescaled by an
+# exact power of two (an angle does not depend on the magnitude of the point).
+EXT_MAX = 1e307                   # largest |coordinate| generated: r <= sqrt(3) * 1e307 stays finite
+EXT_LADDER = [0.0, 1e-200, 1e-100, 1.0, 1e100, 1e150, 1e160, 1e250, 1e308]
+EXT_EXPONENTS = [-320, -300, -250, -200, -170, -162, -150, -100, -10, 0, 10, 100, 150, 153, 155, 160, 200, 250, 300, 308]
+EXT_PHI = [[0.0, TWO_PI], [0.0, 0.5, 2.0, 3.5, 5.0, TWO_PI], [0.0, 1.0, 2.5, 4.0, 5.5, TWO_PI], [0.0, 2.0, 4.0, TWO_PI]]
+EXT_PHI_PARTIAL = [[0.3, 2.0, 4.0], [1.0, 2.5, 5.5]]
+EXT_THETA = [[0.0, math.pi], [0.0, 0.7, 2.0, math.pi], [0.0, 0.4, 1.2, 1.9, 2.6, math.pi]]
+EXT_THETA_PARTIAL = [[0.4, 1.2, 2.6]]
+EXT_Z = [[-8e307, -1e150, -1.0, 0.0, 1.0, 1e150, 8e307], [-8e307, -1e200, -1e-200, 1e-200, 1e200, 8e307],
+         [-1e308, 0.0, 1e308], [-8e307, -1e155, -1e-165, 0.0, 1e-165, 1e155, 8e307]]
+EXT_Z_PARTIAL = [[-1e150, 0.0, 1e150], [1e-300, 1e-100, 1e100, 1e300]]
+SQ_OVER = 1.3407807929942596e154   # sqrt(DBL_MAX): above it x*x overflows
+SQ_UNDER = 1.5e-162                # below it x*x underflows to 0 (or a subnormal without precision)
+ENABLE_EXTREME = True
+# the columns of the Cartesian point the radial axis of a class measures
+R_COLUMNS = {"RadialHistogram": None, "PolarHistogram": 2, "SphericalHistogram": 3, "CylindricalHistogram": 2}
+
+
+def ext_value(rng, style, e=None):
+    """one coordinate of the given style (a decimal literal m * 10**e, rounded to the nearest double)"""
+    sgn = rng.choice([-1.0, 1.0])
+    if style == "zero":
+        return rng.choice([0.0, -0.0])
+    if style == "ordinary":
+        return round(rng.uniform(-3, 3), 3)
+    if style == "subnormal":
+        k = rng.choice([1, 2, 3, rng.randint(4, 2 ** 20), rng.randint(2 ** 20, 2 ** 51)])
+        return sgn * k * 5e-324
+    if e is None:
+        e = {"huge": (157, 306), "sq_over": (152, 156), "tiny": (-306, -166), "sq_under": (-165, -159)}[style]
+        e = rng.randint(*e)
+    return sgn * float("%.3fe%d" % (rng.uniform(1, 9.99), e))
+
+
+def ext_point(rng, dim):
+    r = rng.random()
+    if r < 0.4:          # all coordinates of one magnitude: the angles are ordinary, the radius is not
+        style = rng.choice(["huge", "huge", "sq_over", "tiny", "tiny", "sq_under", "subnormal"])
+        e = None if style == "subnormal" else rng.randint(*{"huge": (157, 306), "sq_over": (152, 156), "tiny": (-306, -166),
+                                                             "sq_under": (-165, -159)}[style])
+        p = [ext_value(rng, style, e) for _ in range(dim)]
+        if rng.random() < 0.25:
+            p[rng.randrange(dim)] = ext_value(rng, "zero")
+        return p
+    if r < 0.55:         # on an axis: one extreme coordinate, signed zeros elsewhere
+        p = [ext_value(rng, "zero") for _ in range(dim)]
+        p[rng.randrange(dim)] = ext_value(rng, rng.choice(["huge", "sq_over", "tiny", "sq_under", "subnormal"]))
+        return p
+    if r < 0.65:         # a huge coordinate together with ordinary ones
+        p = [ext_value(rng, "ordinary") for _ in range(dim)]
+        p[rng.randrange(dim)] = ext_value(rng, rng.choice(["huge", "sq_over", "tiny", "subnormal"]))
+        return p
+    # mixed magnitudes: 1e200 with 1e-200
+    return [ext_value(rng, rng.choice(["huge", "huge", "sq_over", "tiny", "tiny", "sq_under", "subnormal", "ordinary", "zero"]))
+            for _ in range(dim)]
+
+
+def r2_exact(p):
+    return sum(Fraction(float(c)) ** 2 for c in p)
+
+
+def edge_tol(e):
+    """rounding allowance of a computed radius next to the edge e: 1e-9 relative, a few subnormal steps at least"""
+    return max(Fraction(e) / 10 ** 9, Fraction(16, 2 ** 1074))
+
+
+def exact_regions(v, E, squared=False, tolerant=True):
+    """regions of the consecutive axis E (floats) that may hold a coordinate: -1 below, 0..nb-1 the bins (the last one closed on
+    the right), nb above. `v` is the exact coordinate, or with `squared` its exact square (the coordinate being >= 0) -- compared
+    with the (squared) edges as rationals. With `tolerant` a coordinate within rounding of an edge belongs to either side."""
+    nb = len(E) - 1
+    F = [Fraction(e) for e in E]
+
+    def below(edge):           # is the coordinate < edge?
+        if not squared:
+            return v < edge
+        return edge > 0 and v < edge * edge
+    k = sum(1 for e in F if not below(e)) - 1                        # last edge <= coordinate
+    if k == nb and ((v == F[-1] ** 2) if squared else (v == F[-1])):
+        k = nb - 1
+    out = {k}
+    if tolerant:
+        for j, e in enumerate(F):
+            t = edge_tol(e)
+            lo, hi = e - t, e + t
+            if squared:
+                near = (lo <= 0 or v >= lo * lo) and v <= hi * hi and hi >= 0
+            else:
+                near = lo <= v <= hi
+            if near:
+                out |= {j - 1, j}
+    return sorted(out)
+
+
+def near_any_edge(p, E):
+    """is the true radius of p within rounding of an edge of E (kept out of the bins' interiors)?"""
+    r2 = r2_exact(p)
+    wide = [Fraction(e) * Fraction(1, 1000) for e in E]              # generator: stay 1e-3 (relative) away
+    for e, w in zip(E, wide):
+        lo, hi = Fraction(e) - w, Fraction(e) + w
+        if e != 0 and lo * lo <= r2 <= hi * hi:
+            return True
+    return False
+
+
+def scaled_pair(*cs):
+    """the coordinates multiplied by one exact power of two that brings the largest magnitude into [1, 2) (a coordinate more than
+    2**1022 times smaller underflows towards a signed zero: its share of any angle is below every double anyway)"""
+    m = max(abs(c) for c in cs)
+    if m == 0 or math.isinf(m) or math.isnan(m):
+        return list(cs)
+    k = 1 - math.frexp(m)[1]
+    return [math.ldexp(c, k) for c in cs]
+
+
+def true_angle(kind, p):
+    """phi / theta of a Cartesian point of any magnitude"""
+    if kind == "phi":
+        x, y = scaled_pair(p[0], p[1])
+        return math.atan2(y, x) % TWO_PI
+    x, y, z = scaled_pair(p[0], p[1], p[2])
+    return math.atan2(math.hypot(x, y), z)
+
+
+def theta_span(p):
+    """theta is computed from rho = hypot(x, y); a subnormal rho is rounded to a multiple of 2**-1074 (no relative precision
+    left), which is rounding, not a wrong coordinate: the interval of theta for rho within two such steps, else None"""
+    if math.hypot(p[0], p[1]) >= 2.0 ** -1000:
+        return None
+    k = 1 - math.frexp(max(abs(c) for c in p))[1] if any(c != 0 for c in p) else 0
+    x, y, z = [math.ldexp(c, k) for c in p]
+    rho, d = math.hypot(x, y), math.ldexp(2.0 ** -1073, k)
+    return tuple(sorted((math.atan2(max(rho - d, 0.0), z), math.atan2(rho + d, z))))
+
+
+def angle_close(kind, got, exp, span=None):
+    if ulps(got, exp) <= 4 or abs(got - exp) <= 1e-300:
+        return True
+    if span is not None and span[0] - 1e-15 <= got <= span[1] + 1e-15:
+        return True
+    # the fold: 0 and 2 pi are one direction (an angle of -1e-400 is rounded to -0.0 before it is folded)
+    return kind == "phi" and abs(abs(got - exp) - TWO_PI) <= 1e-12
+
+
+def angle_regions(kind, v, E, span=None):
+    c = set(axis_candidates(v, E))
+    if span is not None:
+        both = axis_candidates(span[0], E) + axis_candidates(span[1], E)
+        c |= set(range(min(both), max(both) + 1))
+    if kind == "phi" and (v <= 1e-9 or v >= TWO_PI - 1e-9):
+        c |= set(axis_candidates(0.0, E)) | set(axis_candidates(TWO_PI, E))
+    return sorted(c)
+
+
 class C15:
     ID = "C15"
-    N_QUICK = 590      # 520 + the share of the chain stream (every 8th case)
-    N_THOROUGH = 12000
+    N_QUICK = 690      # 520 + the share of the chain stream (every 8th case) + the share of the extreme-magnitude stream (every 7th)
+    N_THOROUGH = 14000
     N_SEARCH = 400
     RULE = ("the six transformed classes (+ cylinder surface) with irregular bins in their own coordinates (full or partial "
             "angular ranges) x Cartesian points in all quadrants / octants, on axes and coordinate planes, at the origin, with "
@@ -331,11 +489,21 @@ class C15:
             "the one matching the coordinates kept (r -> radial, phi -> azimuthal, (r, phi) -> polar, (theta, phi) -> spherical "
             "surface, (phi, z) -> cylinder surface with the outer rho edge as radius; other subsets and projections of plain "
             "histograms plain), its bins and contents / errors2 the marginal, and find_bin of Cartesian points on it gives the "
-            "bin of the kept true coordinates. non-trivial = points in at least two "
+            "bin of the kept true coordinates. kind extreme (every 7th case, stream:extreme_magnitude): finite points with huge "
+            "coordinates (above sqrt(DBL_MAX), where x*x overflows), tiny ones (x*x underflows), subnormals, signed zeros and all of "
+            "these in one point (|coordinate| <= 1e307, so the radius is finite) x all seven classes x radial edges over many decades "
+            "(0, 1e-200 ... 1e308, or equally wide bins on the scale of the points), full / partial angular and z edges: the "
+            "transformed radius within 4 ulp of the exact sqrt(x^2+y^2(+z^2)) (rationals), z unchanged, the angles those of the point "
+            "rescaled by a power of two; find_bin / fill / fill_n / facade (columns and array), each also with transformed=True, put "
+            "every point into the bin holding its exact radius (r^2 against edge^2 as rationals; within 1e-9 of an edge either side) "
+            "and agree with each other; the radial histogram of the points equals the r projection (a RadialHistogram) of their polar "
+            "/ spherical / cylindrical histogram. non-trivial = points in at least two "
             "different bins (special, facade, chain), at least one invalid call (baddims), a non-empty histogram (radius); "
             "distinct = case hash")
     ASSUMPTIONS = ["libm hypot / atan2 / cos are accurate to a few ulps; transformed coordinates are compared within 4 ulps, "
-                   "bins exactly on the implementation's own coordinates"]
+                   "bins exactly on the implementation's own coordinates",
+                   "kind extreme: a subnormal rho = hypot(x, y) carries no relative precision; theta derived from it is accepted within the "
+                   "interval that two subnormal steps of rho span; phi = 0 and phi = 2 pi are one direction (an angle of -1e-400 rounds to -0.0)"]
     EXTRA_TRUST = ["the coordinate theorems are over the real numbers with Complex.arg as atan2; floating-point evaluation is checked by correspondence"]
 
     def gen_case(self, rng, k, tier):
@@ -343,6 +511,8 @@ class C15:
             return self.gen_f32(rng)
         if k % 8 == 3:
             return self.gen_chain(rng)
+        if ENABLE_EXTREME and k % 7 == 5:
+            return self.gen_extreme(rng)
         r = rng.random()
         if r < 0.45:
             return self.gen_special(rng)
@@ -1233,6 +1403,320 @@ class C15:
                         break
         return fails[:6]
 
+    # ================================================================== kind "extreme": finite points of extreme magnitude
+    def gen_extreme(self, rng):
+        """points whose coordinates are huge (their squares overflow), tiny (their squares underflow), subnormal, zero, or all of
+        these at once, in every transformed class, with explicit bins over many decades so that the true radius lies well inside a
+        bin"""
+        klass = rng.choice(["RadialHistogram"] * 4 + ["PolarHistogram"] * 2 + ["SphericalHistogram"] * 2 + ["CylindricalHistogram"] * 2
+                           + ["AzimuthalHistogram", "SphericalSurfaceHistogram", "CylindricalSurfaceHistogram"])
+        dim = rng.choice(SRC_DIM[klass])
+        kinds = KIND[klass]
+        tags = ["kind:extreme", "stream:extreme_magnitude", "class:" + klass, f"dim:{dim}"]
+        axes, scale = [], None
+        for kd in kinds:
+            partial = rng.random() < 0.15
+            if kd == "r":
+                q = rng.random()
+                if q < 0.3:
+                    e = list(EXT_LADDER)
+                    tags.append("redges:ladder")
+                elif q < 0.65:
+                    ex = sorted(rng.sample(EXT_EXPONENTS, rng.randint(2, 8)))
+                    e = ([0.0] if rng.random() < 0.75 else []) + [float("1e%d" % x) for x in ex]
+                    if rng.random() < 0.75 and e[-1] != 1e308:
+                        e.append(1e308)
+                    tags.append("redges:decades")
+                else:        # equally wide bins far from 1: the points are drawn on the same scale
+                    scale = float("%.2fe%d" % (rng.uniform(1, 9.99), rng.choice([-300, -200, -170, -163, -161, 153, 154, 155, 200, 300])))
+                    e = [0.0 if rng.random() < 0.8 else 0.5 * scale] + [m * scale for m in (1.0, 2.0, 3.0, 5.0)[:rng.randint(2, 4)]]
+                    tags.append("redges:linear")
+            elif kd == "phi":
+                e = list(rng.choice(EXT_PHI_PARTIAL if partial else EXT_PHI))
+            elif kd == "theta":
+                e = list(rng.choice(EXT_THETA_PARTIAL if partial else EXT_THETA))
+            else:
+                e = list(rng.choice(EXT_Z_PARTIAL if partial else EXT_Z))
+            axes.append([float(x) for x in e])
+        n = rng.choice([1, 2, 4, 8, 12])
+        rcols = R_COLUMNS.get(klass, 0) if "r" in kinds else 0
+        pts = []
+        for _ in range(n):
+            for attempt in range(8):
+                if scale is not None and rng.random() < 0.85:
+                    p = [rng.choice([0.0, -0.0]) if rng.random() < 0.15 else round(rng.uniform(-2.6, 2.6), 3) * scale for _ in range(dim)]
+                    if rcols == 2 and dim == 3 and rng.random() < 0.5:
+                        p[2] = ext_value(rng, rng.choice(["huge", "tiny", "ordinary", "zero"]))
+                else:
+                    p = ext_point(rng, dim)
+                p = [float(c) for c in p]
+                if any(abs(c) > EXT_MAX for c in p):
+                    continue
+                if "r" in kinds and near_any_edge(p[:rcols] if rcols else p, axes[0]):
+                    continue
+                break
+            pts.append(p)
+        ws = [rng.choice([1, 2, 0.5]) for _ in range(n)] if rng.random() < 0.25 else None
+        mags = [abs(c) for p in pts for c in p]
+        if any(m > SQ_OVER for m in mags):
+            tags.append("ext:square_overflows")
+        if any(0 < m < SQ_UNDER for m in mags):
+            tags.append("ext:square_underflows")
+        if any(0 < m < 2.2250738585072014e-308 for m in mags):
+            tags.append("ext:subnormal")
+        if any(m == 0 for m in mags):
+            tags.append("ext:zero_coordinate")
+        if any(max(abs(c) for c in p) > SQ_OVER and 0 < min(abs(c) for c in p if c != 0) < SQ_UNDER for p in pts if any(c != 0 for c in p)):
+            tags.append("ext:mixed_in_one_point")
+        return {"kind": "extreme", "class": klass, "dim": dim, "axes": axes, "points": pts, "weights": ws, "nan_row": False,
+                "form": rng.choice(["cols", "array"]) if (klass == "RadialHistogram" and dim == 3) else ("cols" if dim == 2 else "array"),
+                "tags": sorted(set(tags))}
+
+    def run_extreme(self, case):
+        from physt import special_histograms as sp
+        klass = getattr(sp, case["class"])
+        kinds = KIND[case["class"]]
+        log, out = [], {"dyn_tags": []}
+        P = np.array(case["points"], dtype=float)
+        edges = [np.array(e, dtype=float) for e in case["axes"]]
+        nd = len(edges)
+        ws = case["weights"]
+        W = None if ws is None else np.array(ws, dtype=float)
+
+        def new():
+            return klass(edges[0].copy()) if nd == 1 else klass([e.copy() for e in edges])
+
+        def snap(h):
+            s = implnd.snapn(h)
+            s = {k: s[k] for k in ("bins", "freq", "err2", "missed", "shape", "_class")}
+            if nd == 1:
+                s["under"], s["over"] = nrs(h.underflow), nrs(h.overflow)
+            return s
+
+        def idx(i):
+            if i is None:
+                return None
+            return [int(j) for j in np.atleast_1d(i)] if nd > 1 else int(i)
+
+        def attempt(name, f):
+            try:
+                return f()
+            except Exception as ex:
+                log.append(f"{name}: {type(ex).__name__}: {ex}"[:200])
+                return None
+        T = np.asarray(klass.transform(P), dtype=float).reshape(len(P), -1)
+        out["transformed"] = [[nrs(x) for x in row] for row in T]
+        out["single_transform"] = [[nrs(x) for x in np.atleast_1d(klass.transform(p))] for p in P]
+        finite = bool(np.isfinite(T).all())
+
+        def tv(t):
+            return t if nd > 1 else float(t[0])
+        # find_bin (twice: it must not change anything), fill, fill_n of the Cartesian points
+        b = new(); before = snap(b)
+        out["rets_find"] = attempt("find_bin", lambda: [idx(b.find_bin(p)) for p in P])
+        out["rets_find_t"] = attempt("find_bin(transformed=True)", lambda: [idx(b.find_bin(tv(t), transformed=True)) for t in T])
+        out["find_changes"] = snap(b) != before
+        a = new()
+        out["rets_fill"] = attempt("fill", lambda: [idx(a.fill(p, 1 if ws is None else ws[j])) for j, p in enumerate(P)])
+        out["fill"] = snap(a)
+        c = new()
+        ok = attempt("fill_n", lambda: (c.fill_n(P, weights=None if W is None else W.copy()), True)[1])
+        out["fill_n"] = snap(c) if ok else None
+        d = new()
+        out["rets_fill_t"] = attempt("fill(transformed=True)",
+                                     lambda: [idx(d.fill(tv(t), 1 if ws is None else ws[j], transformed=True)) for j, t in enumerate(T)])
+        out["fill_t"] = snap(d)
+        e = new()
+        ok = attempt("fill_n(transformed=True)",
+                     lambda: (e.fill_n(T if nd > 1 else T[:, 0], weights=None if W is None else W.copy(), transformed=True), True)[1])
+        out["fill_n_t"] = snap(e) if ok else None
+        out["points_after"] = [[nrs(x) for x in row] for row in P]
+        # the facade function (columns / array), also with the transformed coordinates
+        fcase = {"facade": FACADE_OF[case["class"]], "spec": [{"t": "edges", "e": list(ax)} for ax in case["axes"]], "form": case["form"],
+                 "method_kw": {}, "radius": None}
+        hf = attempt("facade", lambda: call_facade(sp, fcase, P, ws, True, False))
+        out["facade"] = None if hf is None else snap(hf)
+        hft = attempt("facade(transformed=True)", lambda: call_facade(sp, fcase, T, ws, True, True))
+        out["facade_t"] = None if hft is None else snap(hft)
+        if case["class"] == "RadialHistogram" and case["dim"] == 3:
+            other = dict(fcase, form="cols" if case["form"] == "array" else "array")
+            ho = attempt("facade (other input form)", lambda: call_facade(sp, other, P, ws, True, False))
+            out["facade_other_form"] = None if ho is None else snap(ho)
+        # the radial histogram and the "r" projection of the polar / spherical / cylindrical histogram of the same points
+        out["companion"] = None
+        kw = {} if W is None else {"weights": W.copy()}
+        if "r" in kinds:
+            def companion():
+                name = "r" if case["class"] != "CylindricalHistogram" else "rho"
+                if case["class"] == "RadialHistogram":
+                    full = (sp.polar(P[:, 0].copy(), P[:, 1].copy(), radial_bins=edges[0].copy(), phi_bins=4, **kw) if case["dim"] == 2
+                            else sp.spherical(P.copy(), radial_bins=edges[0].copy(), theta_bins=3, phi_bins=4, **kw))
+                    rad = hf
+                else:
+                    full = hf
+                    cols = P if case["class"] == "SphericalHistogram" else P[:, :2]
+                    rad = sp.radial(*[cols[:, i].copy() for i in range(cols.shape[1])], bins=edges[0].copy(), **kw)
+                pr = full.projection(name)
+                pi = full.projection(0)
+                return {"proj_class": type(pr).__name__, "proj_freq": [nrs(x) for x in np.asarray(pr.frequencies).ravel()],
+                        "proj_err2": [nrs(x) for x in np.asarray(pr.errors2).ravel()],
+                        "proj_by_index_freq": [nrs(x) for x in np.asarray(pi.frequencies).ravel()],
+                        "full_class": type(full).__name__, "full_missed": nrs(full.missed),
+                        "radial_class": type(rad).__name__, "radial_freq": [nrs(x) for x in np.asarray(rad.frequencies).ravel()],
+                        "radial_err2": [nrs(x) for x in np.asarray(rad.errors2).ravel()]}
+            if hf is not None:
+                out["companion"] = attempt("radial histogram / r projection", companion)
+        out["finite"] = finite
+        return {"outs": out, "log": log}
+
+    @staticmethod
+    def extreme_regions(klass, p, E, tolerant=True):
+        """per axis the regions that may hold the true coordinate of the Cartesian point p (exact for r and z)"""
+        kinds = KIND[klass]
+        regs = []
+        for a, (kd, e) in enumerate(zip(kinds, E)):
+            if kd == "r":
+                n = R_COLUMNS[klass]
+                regs.append(exact_regions(r2_exact(p[:n] if n else p), e, squared=True, tolerant=tolerant))
+            elif kd == "z":
+                regs.append(exact_regions(Fraction(float(p[2])), e, tolerant=False))
+            else:
+                regs.append(angle_regions(kd, true_angle(kd, p), e, theta_span(p) if kd == "theta" else None))
+        return regs
+
+    def oracle_extreme(self, case, io):
+        o = io["outs"]
+        klass = case["class"]
+        kinds = KIND[klass]
+        P = case["points"]
+        E = case["axes"]
+        nd = len(E)
+        nbs = [len(e) - 1 for e in E]
+        ws = case["weights"] if case["weights"] is not None else [1] * len(P)
+        fails = []
+        # (a) the transformed coordinates are the true ones
+        for j, p in enumerate(P):
+            for name in ("transformed", "single_transform"):
+                row = o[name][j]
+                if len(row) != nd:
+                    fails.append(f"transform: {klass}.transform({p}) has {len(row)} coordinates ({name})")
+                    break
+                for kd, x in zip(kinds, row):
+                    if x in (None, "inf", "-inf"):
+                        fails.append(f"transform: {klass}.transform({p}) gives {kd} = {x}; the point is finite and so are its true coordinates ({name})")
+                        break
+                    got = float(Fraction(x))
+                    if kd == "r":
+                        n = R_COLUMNS[klass]
+                        r2 = r2_exact(p[:n] if n else p)
+                        u = Fraction(float(np.spacing(got)))
+                        lo, hi = max(Fraction(0), Fraction(x) - 4 * u), Fraction(x) + 4 * u
+                        if got < 0 or not (lo * lo <= r2 <= hi * hi):
+                            fails.append(f"transform: {klass}.transform({p}) gives r = {got!r}, the true radius sqrt(x^2 + y^2{' + z^2' if len(p[:n] if n else p) == 3 else ''}) "
+                                         f"is {self.sqrt_float(r2)!r} ({name})")
+                            break
+                    elif kd == "z":
+                        if got != float(p[2]):
+                            fails.append(f"transform: {klass}.transform({p}) gives z = {got!r}, the point has z = {p[2]!r} ({name})")
+                            break
+                    else:
+                        exp = true_angle(kd, p)
+                        top = TWO_PI if kd == "phi" else math.pi
+                        if not (0 <= got <= top) or not angle_close(kd, got, exp, theta_span(p) if kd == "theta" else None):
+                            fails.append(f"transform: {klass}.transform({p}) gives {kd} = {got!r}, the direction of the point has {kd} = {exp!r} "
+                                         f"whatever its magnitude ({name})")
+                            break
+                else:
+                    continue
+                break
+            if fails:
+                break
+        if o["points_after"] != [[nrs(x) for x in p] for p in P]:
+            fails.append("input_modified: the caller's array of points was modified")
+        if o["find_changes"]:
+            fails.append("find_bin_mutates: find_bin changed the histogram")
+        # (b) every entry path puts every point into the bin that holds its true coordinates
+        per_point = []
+        L, U, L2, U2 = defaultdict(Fraction), defaultdict(Fraction), defaultdict(Fraction), defaultdict(Fraction)
+        for p, w in zip(P, ws):
+            slots = {slot(cmb, nbs) for cmb in itertools.product(*self.extreme_regions(klass, p, E))}
+            per_point.append(slots)
+            w = Fraction(w)
+            if len(slots) == 1:
+                k = next(iter(slots))
+                L[k] += w; L2[k] += w * w
+            for k in slots:
+                U[k] += w; U2[k] += w * w
+        bounds = (L, U, L2, U2)
+        total_w = sum(Fraction(w) for w in ws)
+
+        def where(got):
+            if nd == 1:
+                return None if got is None else ("under" if got < 0 else ("over" if got >= nbs[0] else (got,)))
+            return "missed" if got is None else tuple(got)
+        for name in ("rets_find", "rets_fill", "rets_find_t", "rets_fill_t"):
+            if o[name] is None:
+                fails.append(f"paths_refused: {name[5:]} raised on a finite point: " + "; ".join(io["log"][:2]))
+                continue
+            for j, got in enumerate(o[name]):
+                if where(got) not in per_point[j]:
+                    n = R_COLUMNS.get(klass, 0) if "r" in kinds else 0
+                    r = f", true radius {self.sqrt_float(r2_exact(P[j][:n] if n else P[j]))!r}" if "r" in kinds else ""
+                    fails.append(f"wrong_bin: {name}: the point {P[j]}{r} is put in {got} of the bins {E if nd > 1 else E[0]}, "
+                                 f"it belongs to {sorted(map(str, per_point[j]))}"[:600])
+                    break
+        for name in ("rets_fill", "rets_find_t", "rets_fill_t"):
+            if o[name] is not None and o["rets_find"] is not None and o[name] != o["rets_find"]:
+                k = next(i for i, (x, y) in enumerate(zip(o[name], o["rets_find"])) if x != y)
+                fails.append(f"paths_index: {name}[{k}] = {o[name][k]} for the point {P[k]}, find_bin gives {o['rets_find'][k]}")
+        labels = {"fill": "fill", "fill_n": "fill_n", "fill_t": "fill(transformed=True)", "fill_n_t": "fill_n(transformed=True)",
+                  "facade": FACADE_OF[klass] + "()", "facade_t": FACADE_OF[klass] + "(transformed=True)",
+                  "facade_other_form": FACADE_OF[klass] + "() [other input form]"}
+        base = o["fill_n_t"]
+        for name, label in labels.items():
+            if name not in o:
+                continue
+            S = o[name]
+            if S is None:
+                fails.append(f"paths_refused: {label} raised on finite points: " + "; ".join(io["log"][:2]))
+                continue
+            fails += check_counts(label, S, nbs, bounds, total_w)
+            if base is not None and S is not base:
+                k = same_counts(S, base)
+                if k:
+                    fails.append(f"paths_{k}: {label} gives {S[k]}, entering the transformed coordinates {base[k]}"[:500])
+        # (c) the radial histogram is the "r" projection of the polar / spherical / cylindrical histogram of the same points
+        C = o["companion"]
+        if "r" in kinds:
+            if C is None:
+                if o["facade"] is not None:
+                    fails.append("paths_refused: the radial histogram / the r projection of the same points raised: " + "; ".join(io["log"][:2]))
+            else:
+                if C["proj_class"] != "RadialHistogram":
+                    fails.append(f"projection_class: the r projection of a {C['full_class']} is a {C['proj_class']}")
+                if C["proj_by_index_freq"] != C["proj_freq"]:
+                    fails.append("projection_content: the r projection by name and by index differ")
+                pf_, rf = [Fraction(x) for x in C["proj_freq"]], [Fraction(x) for x in C["radial_freq"]]
+                pe, re_ = [Fraction(x) for x in C["proj_err2"]], [Fraction(x) for x in C["radial_err2"]]
+                nothing_missed = C["full_missed"] is not None and Fraction(C["full_missed"]) == 0
+                if len(pf_) != len(rf) or any(a > b_ for a, b_ in zip(pf_, rf)) or (nothing_missed and (pf_ != rf or pe != re_)):
+                    fails.append(f"radial_vs_projection: the radial histogram of the points {P} has contents {[float(x) for x in rf]}, the r "
+                                 f"projection of their {C['full_class']} {[float(x) for x in pf_]} (missed there: {C['full_missed']})"[:600])
+        return fails[:6]
+
+    @staticmethod
+    def sqrt_float(q):
+        """the double nearest to sqrt(q) for a non-negative rational q (integer square root, 80 extra bits)"""
+        q = Fraction(q)
+        if q == 0:
+            return 0.0
+        s = 2 * 1300
+        root = math.isqrt((q.numerator << s) // q.denominator)
+        try:
+            return float(Fraction(root, 1 << (s // 2)))
+        except OverflowError:
+            return math.inf
+
 
     # ------------------------------------------------------------------ model: base ND histogram on the transformed coordinates
     @staticmethod
@@ -1242,6 +1726,10 @@ class C15:
         kind = case.get("kind", "special")
         if kind == "special":
             return case["axes"]
+        if kind == "extreme":       # the model files the (finite) transformed coordinates into the explicit bins
+            o = io["outs"]
+            ok = o.get("finite") and o.get("rets_fill") is not None and o.get("fill_n") is not None
+            return case["axes"] if ok else None
         if kind == "facade" and io["outs"].get("explicit_ok"):
             return io["outs"]["edges"]
         return None
@@ -1251,7 +1739,7 @@ class C15:
         if E is None:
             return None
         T = io["outs"]["transformed"]
-        if any(v is None for row in T for v in row):
+        if any(v in (None, "inf", "-inf") for row in T for v in row):
             return None
         nd = len(E)
         ws = case["weights"]
@@ -1398,7 +1886,7 @@ class C15:
             return o["root"] is not None and o.get("nonempty_cells", 0) >= 2
         if kind == "facade" and o["facade"] is None:
             return False
-        key = "rets_find_t" if kind == "special" else "rets_find"
+        key = "rets_find_t" if kind in ("special", "extreme") else "rets_find"
         r = [str(x) for x in (o[key] or []) if x is not None]
         return len(set(r)) >= 2
 
@@ -1409,7 +1897,23 @@ class C15:
         return True
 
     def neighbours(self, case):
-        return []
+        """the same histogram and points moved to extreme magnitudes (every coordinate times one exact power of two; the radial
+        axis gets the many-decade edges so that the moved points still meet bins)"""
+        if not ENABLE_EXTREME or case.get("kind", "special") not in ("special", "extreme") or not case.get("points"):
+            return
+        klass = case["class"]
+        for k in (520, 700, 1000, -545, -700, -1000):
+            try:
+                pts = [[math.ldexp(float(c), k) for c in p] for p in case["points"]]
+            except OverflowError:
+                continue
+            if any(math.isinf(c) or abs(c) > EXT_MAX for p in pts for c in p):
+                continue
+            axes = [list(EXT_LADDER) if kd == "r" else ([float(x) for x in e] if kd != "z" else list(EXT_Z[0]))
+                    for kd, e in zip(KIND[klass], case["axes"])]
+            yield {"kind": "extreme", "class": klass, "dim": case["dim"], "axes": axes, "points": pts, "weights": case.get("weights"),
+                   "nan_row": False, "form": "cols" if (klass == "RadialHistogram" or case["dim"] == 2) else "array",
+                   "tags": ["kind:extreme", "stream:extreme_neighbour", "class:" + klass, f"dim:{case['dim']}"]}
 
     def shrink_candidates(self, case):
         kind = case.get("kind", "special")
@@ -1440,6 +1944,20 @@ class C15:
                 c = copy.deepcopy(case)
                 del c["calls"][j]
                 yield c
+        if kind == "extreme":
+            # without weights; coordinates with one significant digit (the oracle does not need the radius inside a bin)
+            if case.get("weights") is not None:
+                c = copy.deepcopy(case)
+                c["weights"] = None
+                yield c
+            if len(case["points"]) <= 2:
+                for j, p in enumerate(case["points"]):
+                    for i, v in enumerate(p):
+                        for simpler in (0.0, float("%.0e" % v)):
+                            if simpler != v and not (simpler == 0.0 and v == 0.0):
+                                c = copy.deepcopy(case)
+                                c["points"][j][i] = simpler
+                                yield c
         for key in ("points", "points2"):
             if key not in case:
                 continue
